@@ -10,7 +10,7 @@ from sim.checks.c09 import sig
 
 from sismic import exceptions as sx
 from sismic.interpreter import Interpreter
-from sismic.model import Event
+from sismic.model import Event, Statechart, CompoundState, BasicState, FinalState, Transition
 
 ID = 'C18'
 LEVEL = 'fault_enumeration'
@@ -19,7 +19,7 @@ BUDGET = {'quick': 25, 'thorough': 300}
 BLOCK = 8
 STREAM_ORDER = ['ops', 'guards', 'faults', 'chart', 'cfg']
 RULE = ('well-formed chart with contracts reading __old__, history states, sends and delayed events; a seeded script of queue (with '
-        'delays) / clock advance / execute_once with drawn guard outcomes and some contract conditions made false. The "crash" is a '
+        'delays) / clock advance / execute_once with drawn guard outcomes and some contract conditions made false; in a third of the runs a property statechart that reads its synchronised clock is bound and is part of the snapshot. The "crash" is a '
         'snapshot (pickle.dumps+loads, and copy.deepcopy) taken at a macro-step boundary: at EVERY boundary b of the script (thorough) or 6 '
         'drawn boundaries (quick), and a second time a few steps later (restore, continue, crash again). The restored interpreter and the '
         'original are continued in lock-step and both must reproduce the undisturbed control run: macro steps, configurations, context, '
@@ -32,6 +32,24 @@ LEVEL_TEXT = ('crash/restart fault enumeration: for each sampled (chart, script)
               'tier; the oracle is the undisturbed control run')
 LEVEL_NOTE = 'trusted: the control run as oracle; the signature function for macro steps and contexts'
 TECHNIQUE = 'deterministic simulation with fault injection: crash (pickle/deepcopy) at every macro-step boundary, lock-step against an undisturbed control'
+
+
+def _timewire():
+    """property statechart that turns final at the first monitored step whose time (read from the property chart's own,
+    synchronised clock) has reached K"""
+    sc = Statechart('timewire')
+    sc.add_state(CompoundState('r', initial='s'), None)
+    sc.add_state(BasicState('s'), 'r')
+    sc.add_state(FinalState('f'), 'r')
+    sc.add_transition(Transition('s', 'f', event='step started', guard='time >= K'))
+    return sc
+
+
+TIMEWIRE = _timewire()
+
+
+def _mk_property(sc, clock, K=0):
+    return Interpreter(sc, clock=clock, initial_context={'K': K})
 
 
 class Player:
@@ -67,6 +85,9 @@ class Player:
             self.dead = True
         except (sx.NonDeterminismError, sx.ConflictingTransitionsError) as e:
             ms, exc = None, (type(e).__name__,)
+        except sx.PropertyStatechartError:
+            ms, exc = None, ('PropertyStatechartError',)
+            self.dead = True
         except Exception as e:
             ms, exc = None, (type(e).__name__, str(e)[:120])
             self.dead = True
@@ -75,13 +96,16 @@ class Player:
         return (sig(ms), it.configuration, ctx, exc, P.log[mark:], it.time, it.final)
 
 
-def fresh(sp, cond_truth, echoes=()):
+def fresh(sp, cond_truth, echoes=(), watch=None):
     P = Probe()
     P.cond_truth = dict(cond_truth)
     sc = build_api(sp)
     for name, attr, text in echoes:
         setattr(sc.state_for(name), attr, text)
     it = Interpreter(sc, clock=SimClock(), initial_context={'P': P}, ignore_contract=False)
+    if watch is not None:
+        import functools
+        it.bind_property_statechart(TIMEWIRE, interpreter_klass=functools.partial(_mk_property, K=watch))
     return Player(it)
 
 
@@ -116,8 +140,13 @@ def run(ch, tier):
         for name in sp.states:
             if fs.choice(6) == 1:
                 echoes.append((name, fs.pick(['on_entry', 'on_exit']), fs.pick(pres)))
+    # in a third of the runs a property statechart is bound that turns final once its own (synchronised) clock reaches K:
+    # the snapshot carries it along, and the copy must follow the copy
+    watch = fs.pick([1, 2, 5, 8, 12]) if fs.flag(1, 3) else None
+    if watch is not None:
+        res.stats['runs_with_a_bound_time_reading_property_statechart'] += 1
     # ---------------- control run; the script is drawn while it executes
-    control = fresh(sp, cond_truth, echoes)
+    control = fresh(sp, cond_truth, echoes, watch)
     script, outs = [], []
     n = ops.int(4, 25 if tier == 'quick' else 40)
     uid = 0
@@ -136,9 +165,9 @@ def run(ch, tier):
         outs.append(control.play(op))
         res.stats['steps'] += 1 if kind == 'step' else 0
         if control.dead:
-            if outs[-1][3][0] not in ('PreconditionError', 'PostconditionError', 'InvariantError'):
+            if outs[-1][3][0] not in ('PreconditionError', 'PostconditionError', 'InvariantError', 'PropertyStatechartError'):
                 raise Abandon('other: unexpected %s in the control run' % outs[-1][3][0])
-            res.stats['control_ended_by_contract_error'] += 1
+            res.stats['control_ended_by_property_statechart' if outs[-1][3][0] == 'PropertyStatechartError' else 'control_ended_by_contract_error'] += 1
             break
     PROTOCOL[0] = fs.pick([None, 2, 3, 4, 5, 0])
     bounds = list(range(1, len(script)))     # snapshot taken before script[b]
@@ -151,7 +180,7 @@ def run(ch, tier):
     cfp = fp((sp.fingerprint(), [repr(o) for o in script]))
     for b in bounds:
         for kind in ('pickle', 'deepcopy'):
-            orig = fresh(sp, cond_truth, echoes)
+            orig = fresh(sp, cond_truth, echoes, watch)
             for i in range(b):
                 orig.play(script[i])
             try:
